@@ -115,6 +115,9 @@ C12_Shape(dp, err) ==
     /\ \A i \in 1..Len(err) : err[i].cls \in DOMAIN dp
 
 \* --------------------------------------------------------------- C14 / C03
+\* the parse ended in a scan that bytes appended to the input could change (read-to-end field,
+\* greedy regex match touching the end of the buffer)
+OpenEnded(u) == \E i \in 1..Len(u.reads) : u.reads[i].open
 \* two observations of the same declaration, the second with everything shifted by d
 ShiftErr(err, d) == [i \in 1..Len(err) |-> [err[i] EXCEPT !.off = @ + d]]
 C14_Lockstep(u1, u2, d) ==
